@@ -73,6 +73,18 @@ impl LmSpec {
         }
         m
     }
+    /// The same model with the domain map in a different insertion order than the column list - what
+    /// the Linearizer produces (sorted columns, declaration-order domain).
+    pub fn to_rooc_domain_shuffled(&self, rng: &mut ChaCha8Rng) -> LinearModel {
+        let (obj, sense, offset, rows, vars, domain) = self.to_rooc().into_parts();
+        let mut keys: Vec<String> = domain.keys().cloned().collect();
+        keys.shuffle(rng);
+        let mut shuffled = indexmap::IndexMap::new();
+        for k in keys {
+            shuffled.insert(k.clone(), domain[&k].clone());
+        }
+        LinearModel::new_from_parts(obj, sense, offset, rows, vars, shuffled)
+    }
     pub fn from_rooc(lm: &LinearModel) -> LmSpec {
         let inf = |f: f64| if f.is_finite() { Some(f) } else { None };
         LmSpec {
@@ -109,8 +121,9 @@ impl LmSpec {
             .to_string(),
         }
     }
-    /// "wide" when the non-zero matrix / objective coefficients span a factor >= 50: the
-    /// structural precondition of the tableau simplex's known tolerance problem.
+    /// "wide" when the non-zero matrix / objective coefficients span a factor >= 50 or the smallest
+    /// of them is <= 0.05: the structural precondition of the tableau simplex's known tolerance
+    /// problem (its comparisons use an absolute 1e-5).
     pub fn coefficient_range(&self) -> &'static str {
         let mut lo = f64::INFINITY;
         let mut hi: f64 = 0.0;
@@ -121,7 +134,7 @@ impl LmSpec {
                 hi = hi.max(a);
             }
         }
-        if hi > 0.0 && hi / lo >= 50.0 { "wide" } else { "plain" }
+        if hi > 0.0 && (hi / lo >= 50.0 || lo <= 0.05) { "wide" } else { "plain" }
     }
     pub fn all_continuous(&self) -> bool {
         self.vars.iter().all(|(_, t)| t.is_continuous())
@@ -225,7 +238,8 @@ fn plant_point(rng: &mut ChaCha8Rng, vars: &[(String, VSpec)]) -> Vec<f64> {
 }
 
 pub fn gen_lm(rng: &mut ChaCha8Rng, o: &LpGenOpts) -> LmSpec {
-    let n = rng.gen_range(1..=o.max_vars);
+    // one model in forty has no variable at all: only constant rows (0 rel b)
+    let n = if rng.gen_range(0..40) == 0 { 0 } else { rng.gen_range(1..=o.max_vars) };
     let m = rng.gen_range(0..=o.max_rows);
     let names_pool = ["x", "y", "z", "w", "u", "v", "t", "s"];
     let style = rng.gen_range(0..3);
